@@ -19,6 +19,7 @@ package generic
 import (
 	"bytes"
 	"fmt"
+	"math"
 	"sync"
 	"unsafe"
 
@@ -1052,6 +1053,19 @@ ret:
 	return
 }
 
+// intKeyFits reports whether the Go int v is a value of the integer key type kt
+func intKeyFits(kt thrift.Type, v int) bool {
+	switch kt {
+	case thrift.I08:
+		return v >= math.MinInt8 && v <= math.MaxUint8 // a byte key may be addressed as int8 or uint8
+	case thrift.I16:
+		return v >= math.MinInt16 && v <= math.MaxInt16
+	case thrift.I32:
+		return v >= math.MinInt32 && v <= math.MaxInt32
+	}
+	return true
+}
+
 func (self *Node) deleteChild(path Path) Node {
 	p := thrift.BinaryProtocol{}
 	p.Buf = self.raw()
@@ -1119,6 +1133,10 @@ func (self *Node) deleteChild(path Path) Node {
 		}
 		if pt := path.Type(); pt != PathBinKey && !(pt == PathStrKey && kt == thrift.STRING) && !(pt == PathIntKey && kt.IsInt()) {
 			return errNode(meta.ErrDismatchType, "", nil)
+		}
+		if path.Type() == PathIntKey && !intKeyFits(kt, path.int()) {
+			// ToRaw would wrap the key into the key type's range and name another entry
+			return errNotFound
 		}
 		id := path.ToRaw(kt)
 		if id == nil {
